@@ -40,7 +40,13 @@ say "== 2. apply patch"
 git apply "$D/patch.diff" >>"$LOG" 2>&1 || { say "FAIL: patch does not apply"; exit 1; }
 git diff --stat | tee -a "$LOG"
 say "== 3. test suite with the change"
-timeout 1800 cargo test --workspace --no-fail-fast --offline >"$D/confirm-tests.log" 2>&1; rc=$?
+# a few existing tests use fixed /tmp paths and collide with other jobs running the same suite:
+# a failing run is repeated (up to 3 runs); only a suite that fails every time counts as failing
+for attempt in 1 2 3; do
+  timeout 1800 cargo test --workspace --no-fail-fast --offline >"$D/confirm-tests.log" 2>&1; rc=$?
+  [ $rc -eq 0 ] && break
+  say "   (suite run $attempt failed: $(grep -E '^test .* FAILED' "$D/confirm-tests.log" | head -3 | tr '\n' ' '))"
+done
 grep -E '^test result' "$D/confirm-tests.log" | awk '{p+=$4; f+=$6} END {print "tests passed=" p " failed=" f}' | tee -a "$LOG"
 [ $rc -eq 0 ] || { say "FAIL: test suite fails with the change (rc=$rc)"; grep -E 'FAILED|panicked|error' "$D/confirm-tests.log" | head -20 | tee -a "$LOG"; exit 1; }
 say "== 4. demo with the change (must fail)"
